@@ -289,6 +289,22 @@ def trace {DT : Type} (E : Env DT) (s : St) : List (Op DT) → List (St × Outco
   | [] => []
   | op :: ops => let r := apply E s op; r :: trace E r.1 ops
 
+/-! ### several writer sessions on one database file -/
+
+/-- A new `SqliteWriter` on the same database file: it sees what is committed (a pending transaction of an earlier
+    connection is gone), has counted nothing and has seen no descriptor yet. -/
+def reopen (s : St) : St :=
+  { committed := s.committed, work := s.committed, count := 0, batch := s.batch, seen := [], isOpen := true }
+
+/-- The state before the first session: no database yet, no writer. -/
+def noWriter (batch : Nat) : St :=
+  { committed := [], work := [], count := 0, batch := batch, seen := [], isOpen := false }
+
+/-- One writer session after another on one file; every session ends with `close` before the next one opens. -/
+def runSessions {DT : Type} (E : Env DT) (s : St) : List (List (Op DT)) → St
+  | [] => s
+  | ops :: rest => runSessions E (run E (reopen s) (ops ++ [.close])) rest
+
 /-! ### what the database should hold (no transactions, no `seen` cache) -/
 
 /-- The cells `db_insert_record` hands to the INSERT, unless a value is refused. -/
@@ -315,6 +331,10 @@ def specStep (store : String → DbVal → DbVal) (T : Tables) (w : Desc × Opti
 
 def specTables (store : String → DbVal → DbVal) (ws : List (Desc × Option (List (Text × DbVal)))) : Tables :=
   ws.foldl (specStep store) []
+
+/-- the writes of all sessions, in order -/
+def sessionWrites {DT : Type} (E : Env DT) (ss : List (List (Op DT))) : List (Desc × Option (List (Text × DbVal))) :=
+  ss.flatMap (writesOf E)
 
 /-- SQLite accepts the DDL of every write of the history (no duplicate column name up to case). -/
 def accepted (store : String → DbVal → DbVal) (T : Tables) : List (Desc × Option (List (Text × DbVal))) → Bool
